@@ -207,12 +207,16 @@ class NetworkGraph(AbstractBaseIR):
                     else:
                         scalar_edges.append((s, t, e))
 
+                n_matrix_delays = 0
                 for s, t, e in matrix_edges + global_edges:
                     d = self.edges[s, t, e].get('delay')
                     v = self.edges[s, t, e].get('spread')
                     if d is not None and d > self.step_size:
+                        # every delayed connection gets its own buffer / kernel chain (unique variable names)
+                        buffer_id = f"_m{n_matrix_delays}" if n_matrix_delays else ""
                         self._add_matrix_delay(node_name, op_name, var_name, (s, t, e),
-                                               d, v, dde_approx=dde_approx)
+                                               d, v, dde_approx=dde_approx, buffer_id=buffer_id)
+                        n_matrix_delays += 1
 
                 if not scalar_edges:
                     continue
